@@ -19,7 +19,7 @@
 (* truth for "what the library must answer" and are used unchanged by the  *)
 (* trace specification (CtapTrace.tla).                                    *)
 (***************************************************************************)
-EXTENDS AuthData, U2f, Dispatch, Json
+EXTENDS AuthData, U2f, Dispatch, Json, FiniteSets
 
 CONSTANTS F,             \* feature configuration, a subset of Features
           Cases,         \* the scenario's generator: a set of case records (each has .op)
@@ -32,9 +32,10 @@ VARIABLES phase,    \* "idle" | "received" | "decoded" | "called" | "returned" |
           calls,    \* Seq([handler, args]): the authenticator's call log (history)
           ret,      \* what the dispatcher returned / the response handed to the encoder
           buf,      \* Seq(Byte): the transport buffer (persists across exchanges)
+          stale,    \* what the buffer held when this exchange began (history)
           nexch     \* number of completed exchanges (bounds histories)
 
-vars == <<phase, case, wire, req, calls, ret, buf, nexch>>
+vars == <<phase, case, wire, req, calls, ret, buf, stale, nexch>>
 
 NoCase == [op |-> "none"]
 None   == << >>
@@ -104,7 +105,7 @@ Model_dispatch(variant, script, hasLb) ==
 (***************************************************************************)
 Init ==
     /\ phase = "idle" /\ case = NoCase /\ wire = << >> /\ req = NoCase
-    /\ calls = << >> /\ ret = NoCase /\ buf = << >> /\ nexch = 0
+    /\ calls = << >> /\ ret = NoCase /\ buf = << >> /\ stale = << >> /\ nexch = 0
 
 \* The host (or the authenticator application, for the stand-alone calls) starts an exchange.
 HostSends(c) ==
@@ -112,25 +113,28 @@ HostSends(c) ==
     /\ case' = c
     /\ wire' = (IF c.op \in {"decode2", "apdu", "exchange"} THEN c.wire ELSE << >>)
     /\ phase' = "received"
-    /\ UNCHANGED <<req, calls, ret, buf, nexch>>
+    \* a scenario may plant arbitrary previous contents in the transport buffer
+    /\ buf' = (IF "stale" \in DOMAIN c /\ c.stale # << >> THEN c.stale ELSE buf)
+    /\ stale' = buf'
+    /\ UNCHANGED <<req, calls, ret, nexch>>
 
 Decode2 ==
     /\ phase = "received" /\ case.op \in {"decode2", "exchange"}
     /\ req' = Model_decode2(wire)
     /\ phase' = "decoded"
-    /\ UNCHANGED <<case, wire, calls, ret, buf, nexch>>
+    /\ UNCHANGED <<case, wire, calls, ret, buf, stale, nexch>>
 
 Decode1 ==
     /\ phase = "received" /\ case.op = "apdu"
     /\ req' = Model_apdu(wire)
     /\ phase' = "decoded"
-    /\ UNCHANGED <<case, wire, calls, ret, buf, nexch>>
+    /\ UNCHANGED <<case, wire, calls, ret, buf, stale, nexch>>
 
 DecodeType ==
     /\ phase = "received" /\ case.op = "decode_type"
     /\ req' = Model_decode_type(case.type, case.bytes)
     /\ phase' = "decoded"
-    /\ UNCHANGED <<case, wire, calls, ret, buf, nexch>>
+    /\ UNCHANGED <<case, wire, calls, ret, buf, stale, nexch>>
 
 \* dispatch of a decoded (or given) request to the authenticator
 Call ==
@@ -141,14 +145,14 @@ Call ==
        IN  /\ calls' = d.calls
            /\ ret' = d
     /\ phase' = "returned"
-    /\ UNCHANGED <<case, wire, req, buf, nexch>>
+    /\ UNCHANGED <<case, wire, req, buf, stale, nexch>>
 
 \* a request that could not be decoded is answered with its status byte alone
 Reject ==
     /\ phase = "decoded" /\ case.op = "exchange" /\ ~req.ok
     /\ ret' = [calls |-> << >>, ok |-> FALSE, err |-> req.status, kind |-> ""]
     /\ phase' = "returned"
-    /\ UNCHANGED <<case, wire, req, calls, buf, nexch>>
+    /\ UNCHANGED <<case, wire, req, calls, buf, stale, nexch>>
 
 Encode2 ==
     /\ \/ phase = "received" /\ case.op = "encode2"
@@ -157,7 +161,7 @@ Encode2 ==
                ELSE IF ret.ok THEN Model_encode2([kind |-> ret.kind, v |-> case.respv], case.cap).buf
                ELSE <<ret.err>>)
     /\ phase' = "encoded"
-    /\ UNCHANGED <<case, wire, req, calls, ret, nexch>>
+    /\ UNCHANGED <<case, wire, req, calls, ret, stale, nexch>>
 
 Encode1 ==
     /\ phase = "received" /\ case.op = "u2f_encode"
@@ -165,13 +169,13 @@ Encode1 ==
        /\ ret' = r
        /\ buf' = r.buf
     /\ phase' = "encoded"
-    /\ UNCHANGED <<case, wire, req, calls, nexch>>
+    /\ UNCHANGED <<case, wire, req, calls, stale, nexch>>
 
 EncodeType ==
     /\ phase = "received" /\ case.op = "encode_type"
     /\ buf' = Model_encode_type(case.type, case.v).bytes
     /\ phase' = "encoded"
-    /\ UNCHANGED <<case, wire, req, calls, ret, nexch>>
+    /\ UNCHANGED <<case, wire, req, calls, ret, stale, nexch>>
 
 SerializeAuthDataAct ==
     /\ phase = "received" /\ case.op = "authdata"
@@ -179,7 +183,7 @@ SerializeAuthDataAct ==
        /\ ret' = r
        /\ buf' = r.bytes
     /\ phase' = "encoded"
-    /\ UNCHANGED <<case, wire, req, calls, nexch>>
+    /\ UNCHANGED <<case, wire, req, calls, stale, nexch>>
 
 \* the exchange is over; the transport keeps its buffer (stale bytes and all)
 \* the last phase of the exchange that `case` describes
@@ -192,7 +196,7 @@ NextExchange ==
     /\ Terminal
     /\ phase' = "idle" /\ nexch' = nexch + 1
     /\ case' = NoCase /\ wire' = << >> /\ req' = NoCase /\ calls' = << >> /\ ret' = NoCase
-    /\ UNCHANGED buf
+    /\ UNCHANGED <<buf, stale>>
 
 Next ==
     \/ \E c \in Cases : HostSends(c)
@@ -221,7 +225,7 @@ VecOf ==
              exp |-> IF req.ok THEN req @@ [clone_eq |-> TRUE] ELSE req]
       [] case.op = "encode2" ->
             [op |-> "encode2", tag |-> case.tag, resp |-> case.resp, cap |-> case.cap,
-             stale |-> case.stale, exp |-> [buf |-> buf]]
+             stale |-> stale, exp |-> [buf |-> buf]]
       [] case.op = "encode_type" ->
             [op |-> "encode_type", tag |-> case.tag, type |-> case.type, v |-> case.v,
              exp |-> [bytes |-> buf]]
@@ -283,5 +287,49 @@ KeyAttribution ==
 \* what the host sends in these scenarios is itself canonical CBOR
 HostCanonical ==
     phase = "received" /\ case.op = "decode2" /\ case.sv # << >> => IsCanonical(SubSeq(wire, 2, Len(wire)))
+
+
+(***************************************************************************)
+(* C02 / C03 / C17 on the model.                                           *)
+(***************************************************************************)
+\* generic-parser view of a response body
+BodyOf(msg) == SubSeq(msg, 2, Len(msg))
+
+\* C02: status 0x00, then exactly one map whose pairs are exactly the set members under their
+\* keys; nothing when no member is set; never a null
+EncodeExact ==
+    phase = "encoded" /\ case.op = "encode2" /\ Len(EncodeResponse(case.resp, F)) <= case.cap =>
+        LET s  == RespSchema(case.resp.kind)
+            ms == IF s = "" THEN << >> ELSE Members(s, F)
+            present == {i \in 1..Len(ms) : ms[i].req \/ case.resp.v[ms[i].name] # << >>}
+        IN  /\ buf[1] = 0
+            /\ IF present = {} THEN Len(buf) = 1
+               ELSE LET r == ParseItem(buf, 2) IN
+                    /\ r.ok /\ r.p = Len(buf) + 1 /\ r.v.k = "map"
+                    /\ Len(r.v.m) = Cardinality(present)
+                    /\ {r.v.m[i][1] : i \in 1..Len(r.v.m)} = {ms[i].key : i \in present}
+                    /\ \A i \in 1..Len(r.v.m) : r.v.m[i][2].k # "null"
+                    /\ \A i \in present :
+                          MapGet(r.v.m, ms[i].key) =
+                            <<ToTree(InnerTy(ms[i].ty),
+                                     IF ms[i].req THEN case.resp.v[ms[i].name] ELSE case.resp.v[ms[i].name][1],
+                                     F, FALSE)>>
+
+\* C03: every emitted body, and every serialised public type, is canonical
+OutputCanonical ==
+    /\ (phase = "encoded" /\ case.op = "encode2" /\ Len(buf) > 1 => IsCanonical(BodyOf(buf)))
+    /\ (phase = "encoded" /\ case.op = "encode_type" => IsCanonical(buf))
+    /\ (phase = "encoded" /\ case.op = "authdata" /\ ret.ok /\ case.in.ext # << >> =>
+            IsCanonical(ExtBytes(case.in, F)))
+
+\* C17: complete message or the single byte 0x7F
+FitsOrOneByteError ==
+    phase = "encoded" /\ case.op = "encode2" =>
+        LET full == EncodeResponse(case.resp, F) IN
+        IF Len(full) <= case.cap THEN buf = full ELSE buf = <<ST_Other>>
+
+\* C17: the encoder does not read the buffer (action property)
+StaleIndependence ==
+    [][phase' = "encoded" /\ case'.op = "encode2" => buf' = SerializeResponse(case'.resp, F, case'.cap)]_vars
 
 =============================================================================
